@@ -920,3 +920,154 @@ theorem dup_eq_deliver (hj : j < 65536) :
 
 end flip
 end Qx.C19
+
+namespace Qx.C19
+
+/-! ### SOCKS5 receive path -/
+
+theorem checked_checkData (H : List UInt8 → List UInt8) (r : Recv) (h : Checked H r) : Checked H (r.checkData H) := by
+  unfold Recv.checkData Recv.terminate
+  split
+  · split
+    · exact h
+    · intro _ he; simp at he
+  · split
+    · exact h
+    · rename_i hck _
+      intro _ _
+      simpa [Recv.checkFails, Recv.acc] using hck
+
+theorem sstep_checked (H : List UInt8 → List UInt8) (r : Recv) (op : SOp) (h : Checked H r) : Checked H (sstep H r op) := by
+  cases op with
+  | chunk bytes =>
+    simp only [sstep]
+    split
+    · exact h
+    · rename_i hst
+      simp only [ne_eq, Decidable.not_not] at hst
+      split
+      · apply checked_checkData
+        intro hf; simp [hst] at hf
+      · intro hf; simp [hst] at hf
+  | disconnect =>
+    simp only [sstep]
+    split
+    · exact h
+    · exact checked_checkData H r h
+
+theorem srun_checked (H : List UInt8 → List UInt8) (ops : List SOp) (r : Recv) (h : Checked H r) : Checked H (srun H r ops) := by
+  induction ops generalizing r with
+  | nil => exact h
+  | cons op ops ih => exact ih _ (sstep_checked H r op h)
+
+@[simp] theorem sstep_size (H : List UInt8 → List UInt8) (r : Recv) (op : SOp) : (sstep H r op).size = r.size := by
+  cases op <;> simp only [sstep] <;> repeat (first | rfl | split | simp)
+
+@[simp] theorem sstep_hash (H : List UInt8 → List UInt8) (r : Recv) (op : SOp) : (sstep H r op).hash = r.hash := by
+  cases op <;> simp only [sstep] <;> repeat (first | rfl | split | simp)
+
+@[simp] theorem srun_size (H : List UInt8 → List UInt8) (ops : List SOp) (r : Recv) : (srun H r ops).size = r.size := by
+  induction ops generalizing r with
+  | nil => rfl
+  | cons op ops ih => simp [srun, ih]
+
+@[simp] theorem srun_hash (H : List UInt8 → List UInt8) (ops : List SOp) (r : Recv) : (srun H r ops).hash = r.hash := by
+  induction ops generalizing r with
+  | nil => rfl
+  | cons op ops ih => simp [srun, ih]
+
+/-- number of payload bytes in a list of socket events -/
+def sbytes : List SOp → Nat
+  | [] => 0
+  | .chunk b :: ops => b.length + sbytes ops
+  | .disconnect :: ops => sbytes ops
+
+theorem srun_short (H : List UInt8 → List UInt8) (ops : List SOp) (r : Recv)
+    (hn : ¬ r.success) (hlt : r.acc.length + sbytes ops < r.size) : ¬ (srun H r ops).success := by
+  induction ops generalizing r with
+  | nil => exact hn
+  | cons op ops ih =>
+    cases op with
+    | chunk b =>
+      simp only [srun, sstep]
+      simp only [sbytes] at hlt
+      split
+      · exact ih r hn (by omega)
+      · rename_i hst
+        simp only [ne_eq, Decidable.not_not] at hst
+        have hacc : ({ r with accRev := b.reverse ++ r.accRev } : Recv).acc.length = r.acc.length + b.length := by
+          simp [Recv.acc] <;> omega
+        split
+        · rename_i hge
+          have hge2 := hge.2
+          rw [hacc] at hge2
+          have : ({ r with accRev := b.reverse ++ r.accRev } : Recv).size = r.size := rfl
+          omega
+        · apply ih
+          · simp [Recv.success, hst]
+          · rw [hacc]; show r.acc.length + b.length + sbytes ops < r.size; omega
+    | disconnect =>
+      simp only [srun, sstep]
+      simp only [sbytes] at hlt
+      split
+      · exact ih r hn hlt
+      · apply ih
+        · apply Recv.checkData_fails_not_success H r _ hn
+          simp [Recv.checkFails]
+          left; omega
+        · simpa using hlt
+
+theorem sstep_chunk_transfer (H : List UInt8 → List UInt8) (r : Recv) (c : List UInt8) (hst : r.state = .transfer) :
+    sstep H r (.chunk c) =
+      if r.size ≠ 0 ∧ (r.acc ++ c).length ≥ r.size then
+        ({ r with accRev := c.reverse ++ r.accRev } : Recv).checkData H
+      else { r with accRev := c.reverse ++ r.accRev } := by
+  simp [sstep, hst, Recv.acc]
+
+theorem check_pass (H : List UInt8 → List UInt8) (data : List UInt8) (r' : Recv)
+    (e1 : r'.size = data.length) (e2 : ∀ h, r'.hash = some h → H data = h) (e3 : r'.acc = data) (e4 : r'.state = .transfer) :
+    (r'.checkData H).success ∧ (r'.checkData H).acc = data := by
+  have hcf : r'.checkFails H = false := by
+    rw [checkFails_false_iff]
+    exact ⟨fun _ => by rw [e3, e1], fun h hh => by rw [e3]; exact e2 h hh⟩
+  refine ⟨?_, by simpa using e3⟩
+  unfold Recv.checkData Recv.terminate
+  simp [hcf, e4, Recv.success]
+
+theorem srun_honest (H : List UInt8 → List UInt8) (data : List UInt8) (cs : List (List UInt8)) (r : Recv)
+    (hsize : r.size = data.length) (hhash : ∀ h, r.hash = some h → H data = h)
+    (h : (r.state = .transfer ∧ r.acc ++ cs.flatten = data) ∨ (r.success ∧ r.acc = data)) :
+    (srun H r (cs.map .chunk ++ [.disconnect])).success ∧ (srun H r (cs.map .chunk ++ [.disconnect])).acc = data := by
+  induction cs generalizing r with
+  | nil =>
+    simp only [List.map_nil, List.nil_append, srun, sstep]
+    rcases h with ⟨hst, hacc⟩ | ⟨hs, hacc⟩
+    · rw [if_neg (by rw [hst]; decide)]
+      exact check_pass H data r hsize hhash (by simpa using hacc) hst
+    · rw [if_pos hs.1]
+      exact ⟨hs, hacc⟩
+  | cons c cs ih =>
+    simp only [List.map_cons, List.cons_append, srun]
+    rcases h with ⟨hst, hacc⟩ | ⟨hs, hacc⟩
+    · rw [sstep_chunk_transfer H r c hst]
+      simp only [List.flatten_cons] at hacc
+      have hacc' : ({ r with accRev := c.reverse ++ r.accRev } : Recv).acc = r.acc ++ c := by simp [Recv.acc]
+      split
+      · rename_i hge
+        have hlen := congrArg List.length hacc
+        simp only [List.length_append] at hlen
+        have hge2 : r.size ≤ (r.acc ++ c).length := hge.2
+        simp only [List.length_append] at hge2
+        have hfl : cs.flatten = [] := by
+          apply List.eq_nil_of_length_eq_zero
+          omega
+        have hfull : r.acc ++ c = data := by simpa [hfl, List.append_assoc] using hacc
+        have hp := check_pass H data { r with accRev := c.reverse ++ r.accRev } hsize hhash (by rw [hacc', hfull]) hst
+        exact ih _ (by simpa using hsize) (by simpa using hhash) (Or.inr hp)
+      · exact ih _ hsize hhash (Or.inl ⟨hst, by rw [hacc', List.append_assoc]; exact hacc⟩)
+    · have : sstep H r (.chunk c) = r := by
+        simp [sstep, hs.1]
+      rw [this]
+      exact ih r hsize hhash (Or.inr ⟨hs, hacc⟩)
+
+end Qx.C19
